@@ -445,7 +445,11 @@ def c21_exception_type(exc: int) -> bool:
     post: _ == True
     """
     k = S.KERNELS[shard("kernel", "find_relevant")]
-    script = S.Script([S.SK_INT], [0xFF00], [S.DK_VALID], raise_at=0, exc_type=EXC_TYPES[exc])
+    exc_type = S.Boom
+    for i, t in enumerate(EXC_TYPES):      # (no list lookup by symbolic index: the element is a class)
+        if exc == i:
+            exc_type = t
+    script = S.Script([S.SK_INT], [0xFF00], [S.DK_VALID], raise_at=0, exc_type=exc_type)
     with S.scp_env() as log:
         r = S.run_kernel(k.name, 21, 3, script, log, n_sub=1, outcomes=[S.SUB_SUCCESS])
     if r.escaped is not None or len(r.sent) != 1:
